@@ -11,11 +11,12 @@ if os.path.isdir(sd):
             stages.update(json.load(open(os.path.join(sd, fn))))
 props = [json.loads(l) for l in open(os.path.join(V, "properties.jsonl"))]
 hooks = [l.split()[0] for l in open(os.path.join(V, "MANIFEST.hooks")) if l.strip() and not l.startswith("#")] if os.path.exists(os.path.join(V, "MANIFEST.hooks")) else []
+claimed = set(open(os.path.join(V, "claimed.txt")).read().split())
 checks, na = [], []
 for p in props:
     pid = p["id"]
     st = stages.get(pid)
-    if st and st.get("claimed", True):
+    if st and pid in claimed:
         m = st.get("manifest", {})
         checks.append({
             "property_id": pid,
